@@ -245,6 +245,13 @@ def entries_run(tier='quick'):
     return _pack('gvc.entries', [r], t0, samples=[dict(obligation='every public parser entry calls init() first', entries_checked=r['checked'])])
 
 
+def errors_run(tier='quick'):
+    from . import analyses as A
+    t0 = time.time()
+    r = A.errors_check()
+    return _pack('gvc.errors', [r], t0, samples=[dict(obligation='Include / File keep their cause as source and are levels of their own in the chain')])
+
+
 def stateless_run(tier='quick'):
     from . import analyses as A
     t0 = time.time()
